@@ -69,7 +69,7 @@ func (w *World) unfoldSpecs(ts []*Term, depth int, reveal map[string]bool) []*Te
 	for d := 0; d < depth; d++ {
 		var apps []*Term
 		for _, t := range frontier {
-			t.walk(func(x *Term) {
+			for _, x := range t.summary().apps {
 				if strings.HasPrefix(x.Op, "spec_") {
 					k := x.String()
 					if !seen[k] {
@@ -77,7 +77,7 @@ func (w *World) unfoldSpecs(ts []*Term, depth int, reveal map[string]bool) []*Te
 						apps = append(apps, x)
 					}
 				}
-			})
+			}
 		}
 		if len(apps) == 0 {
 			break
@@ -151,15 +151,7 @@ func (w *World) unfoldSpecs(ts []*Term, depth int, reveal map[string]bool) []*Te
 // goals are then decided without the solver wading through the quantified context.
 var qfOnly bool
 
-func hasQuant(t *Term) bool {
-	found := false
-	t.walk(func(x *Term) {
-		if x.Op == "forall" || x.Op == "exists" {
-			found = true
-		}
-	})
-	return found
-}
+func hasQuant(t *Term) bool { return t.summary().quant }
 
 func (o *Obligation) buildBody(w *World, depth int, dropHyp int, extra ...*Term) string {
 	enc := o.enc
@@ -183,8 +175,12 @@ func (o *Obligation) buildBody(w *World, depth int, dropHyp int, extra ...*Term)
 	all = append(all, hyps...)
 	// library axioms: only those that share an uninterpreted symbol with the obligation
 	used := map[string]bool{}
-	for _, t := range all {
-		t.symbols(used)
+	if len(w.axioms) > 0 {
+		for _, t := range all {
+			for k := range t.summary().syms {
+				used[k] = true
+			}
+		}
 	}
 	var axioms []*compiledAxiom
 	for _, ca := range w.axioms {
@@ -210,11 +206,9 @@ func (o *Obligation) buildBody(w *World, depth int, dropHyp int, extra ...*Term)
 	// dummy heap constants possibly left by abstract evaluation
 	dummies := map[string]bool{}
 	for _, t := range append(all, unf...) {
-		t.walk(func(x *Term) {
-			if strings.HasPrefix(x.Op, "DUMMY_") {
-				dummies[x.Op] = true
-			}
-		})
+		for _, d := range t.summary().dummy {
+			dummies[d] = true
+		}
 	}
 	if len(dummies) > 0 {
 		ds := sortedKeys(dummies)
@@ -268,7 +262,9 @@ func (w *World) pureFacts(ts []*Term) []*Term {
 	seen := map[string]bool{}
 	var out []*Term
 	for _, t := range ts {
-		t.walk(func(x *Term) {
+		for _, x := range t.summary().apps {
+			x := x
+			func() {
 			pf, ok := w.pureByName[x.Op]
 			if !ok || len(x.Args) != len(pf.Params) {
 				return
@@ -358,7 +354,8 @@ func (w *World) pureFacts(ts []*Term) []*Term {
 				out = append(out, fact)
 			}
 			_ = okAll
-		})
+			}()
+		}
 	}
 	return out
 }
